@@ -145,6 +145,7 @@ pub const FAMILIES: &[&str] = &[
     "two_scale",
     "void",
     "centered_lattice",
+    "hubs",
 ];
 
 pub const MASKS: &[&str] = &["none", "all_true", "all_false", "single", "random"];
@@ -390,6 +391,65 @@ pub fn gen_case(rng: &mut Rng, lim: &GenLimits) -> Case {
             }
             let at = rng.below(unit.len() as u64 + 1) as usize;
             unit.insert(at, [0.5 + 1e-3 * rng.sym(), 0.5 + 1e-3 * rng.sym(), 0.5 + 1e-3 * rng.sym()]);
+        }
+        "hubs" => {
+            // several generators each alone inside a dense shell of its own: SEVERAL cells with very
+            // many faces and vertices (state carried from one expensive cell to the next, thresholds
+            // on the size of a cell), placed next to each other or far apart in index order
+            let budget = if lim.max_n > 200 { n.max(8) } else { (24 + rng.below(177) as usize).min(lim.max_n.max(8)) };
+            let h = (2 + rng.below(5) as usize).min(budget / 4).max(2);
+            let per = ((budget / h).saturating_sub(1)).clamp(3, 40 + rng.below(100) as usize);
+            // centres on a 2x2x2 arrangement so that the shells do not touch
+            let mut slots: Vec<usize> = (0..8).collect();
+            for i in (1..slots.len()).rev() {
+                slots.swap(i, rng.below(i as u64 + 1) as usize);
+            }
+            let thick = 10f64.powf(-1.0 - 5.0 * rng.f64());
+            let mut hubs: Vec<[f64; 3]> = vec![];
+            for j in 0..h {
+                let sl = slots[j % 8];
+                let c = [0.25 + 0.5 * (sl & 1) as f64, 0.25 + 0.5 * ((sl >> 1) & 1) as f64, if dim == 3 { 0.25 + 0.5 * ((sl >> 2) & 1) as f64 } else { 0.5 }];
+                let r = 0.08 + 0.1 * rng.f64();
+                for _ in 0..per {
+                    let (mut x, mut y, mut z);
+                    loop {
+                        x = rng.sym() * 2.0;
+                        y = rng.sym() * 2.0;
+                        z = if dim == 3 { rng.sym() * 2.0 } else { 0.0 };
+                        let l = (x * x + y * y + z * z).sqrt();
+                        if l > 1e-3 && l <= 1.0 {
+                            x /= l;
+                            y /= l;
+                            z /= l;
+                            break;
+                        }
+                    }
+                    let rr = r * (1.0 + thick * rng.sym());
+                    unit.push([c[0] + rr * x, c[1] + rr * y, c[2] + rr * z]);
+                }
+                hubs.push([c[0] + 1e-3 * rng.sym(), c[1] + 1e-3 * rng.sym(), c[2] + if dim == 3 { 1e-3 * rng.sym() } else { 0.0 }]);
+            }
+            // where the hubs sit in index order: all first, all last, one block in the middle, or scattered
+            match rng.below(4) {
+                0 => {
+                    for (k, hb) in hubs.into_iter().enumerate() {
+                        unit.insert(k, hb);
+                    }
+                }
+                1 => unit.extend(hubs),
+                2 => {
+                    let at = rng.below(unit.len() as u64 + 1) as usize;
+                    for (k, hb) in hubs.into_iter().enumerate() {
+                        unit.insert(at + k, hb);
+                    }
+                }
+                _ => {
+                    for hb in hubs {
+                        let at = rng.below(unit.len() as u64 + 1) as usize;
+                        unit.insert(at, hb);
+                    }
+                }
+            }
         }
         _ => {
             // two_scale: a coarse uniform background plus one tight clump:
